@@ -104,6 +104,7 @@ const (
 	gateSlow gateMode = iota // closed until the peer is done and 3 ms of virtual time passed, then open for good
 	gateStep                 // one message let through per millisecond
 	gateStop                 // the connection owner shuts down while the gate is still closed
+	gateProtoStop            // the application stops the mini-protocol while the sender is being held back; the connection is closed a second later
 )
 
 type spec struct {
@@ -245,6 +246,7 @@ func scenario(sp spec) e1lib.Scenario {
 			}
 		}
 		failed := false
+		var stopperDone chan struct{}
 		waitOne := func() {
 			s := rt.NewSel("h:wait", false)
 			rt.SelRecvCase(s, handled)
@@ -270,6 +272,18 @@ func scenario(sp spec) e1lib.Scenario {
 			}
 		case gateStop:
 			vtime.Sleep(3 * time.Millisecond)
+		case gateProtoStop:
+			vtime.Sleep(3 * time.Millisecond)
+			stopperDone = make(chan struct{})
+			rt.Go("stopper", func() {
+				rt.Log("stop-called")
+				ep.Proto.Stop()
+				rt.Log("stop-returned")
+				rt.Close("h:stopperDone", stopperDone)
+			})
+			vtime.Sleep(2 * time.Millisecond)
+			open() // the application finishes what it was doing
+			vtime.Sleep(time.Second)
 		}
 		if sp.bad >= 0 && !failed {
 			// the error may still be on its way
@@ -289,6 +303,9 @@ func scenario(sp spec) e1lib.Scenario {
 		ep.Mux.Stop()
 		open()
 		ep.Proto.Stop()
+		if stopperDone != nil {
+			rt.Recv("h:stopperDone?", stopperDone)
+		}
 		rt.Recv("h:done", ep.Proto.DoneChan())
 		for range rt.Range("h:muxerrs", ep.Mux.ErrorChan()) {
 		}
@@ -353,18 +370,30 @@ func scenario(sp spec) e1lib.Scenario {
 			}
 			return nil
 		}
+		if sp.gate == gateProtoStop {
+			// "the slowing down never deadlocks the connection": stopping the held-back
+			// mini-protocol must not hang until somebody closes the whole connection
+			for _, l := range r.Logs {
+				if l == "stop-returned" {
+					break
+				}
+				if l == "closing" {
+					return []rt.Finding{{Key: "c13:stop-of-held-back-protocol-hangs", What: "Protocol.Stop() called while the fast sender was being held back (application idle again 2 ms later) had not returned after 1 s of virtual time; it returned only when the owner closed the connection: the muxer's read loop is blocked for every mini-protocol of the connection. " + strings.Join(e1tail(r.Logs), " / ")}}
+				}
+			}
+		}
 		// O3
 		if len(errs) > 0 {
 			return []rt.Finding{{Key: "c13:error-on-valid-stream", What: fmt.Sprintf("a fast sender of valid messages caused an error instead of being slowed down: %s", errs[0])}}
 		}
-		if sp.gate != gateStop && len(ended) != len(want) {
+		if sp.gate != gateStop && sp.gate != gateProtoStop && len(ended) != len(want) {
 			return []rt.Finding{{Key: "c13:message-lost", What: fmt.Sprintf("handled %d of %d messages: %v", len(ended), len(want), e1tail(r.Logs))}}
 		}
 		return nil
 	}
 	h := sp.horizon
 	if h == 0 {
-		h = time.Minute
+		h = 10 * time.Second
 	}
 	return e1lib.Scenario{Name: sp.name, Body: body, Check: check, Cfg: rt.Config{Horizon: h, MaxSteps: 400000}}
 }
@@ -580,6 +609,15 @@ func TestC13(t *testing.T) {
 		// 3. the owner closes the connection while the sender is being held back
 		for _, s := range [][]int{{L, L}, {L / 2, L / 2, L / 2}, {L, L / 2, L, L / 2}} {
 			add(ownScenario("stop", s, false, gateStop), 1, 1, 30*time.Second)
+		}
+		for _, n := range []int{3, 16} {
+			many := make([]int, n)
+			for i := range many {
+				many[i] = L / 2
+			}
+			s := ownScenario("protostop", many, false, gateProtoStop)
+			s.Name = fmt.Sprintf("protostop|%dx%d|each", n, L/2)
+			add(s, 1, 1, 60*time.Second)
 		}
 		// 4. many more messages than every queue on the way can take (this is where O2 bites)
 		for _, n := range []int{20, 40} {
